@@ -250,44 +250,6 @@ def register(S):
             return ctx.ret(Opaque.make("vec_iter", elems=v.get("elems"), summary=v.get("summary"), pos=0))
         return ctx.ret(Opaque.make("vec_iter", elems=None, summary=Top(None, deps_of(v)), pos=0))
 
-    @S.on("core::iter::traits::iterator::Iterator::map")
-    def iter_map(ctx):
-        return ctx.ret(Opaque.make("map_iter", inner=ctx.args[0], f=ctx.args[1]))
-
-    @S.on("core::iter::traits::iterator::Iterator::collect")
-    def iter_collect(ctx):
-        it = ctx.args[0]
-        rty = ctx.ret_ty()
-        kind = "string" if rty and rty.get("path") == "alloc::string::String" else "vec"
-        dest, target = ctx.dest, ctx.target
-        if isinstance(it, Opaque) and it.kind == "map_iter" and isinstance(it.get("inner"), Opaque) and it.get("inner").kind == "vec_iter":
-            inner = it.get("inner")
-            f = it.get("f")
-            elems = inner.get("elems")
-            cell = ctx.st.new_heap(TupleVal(()))
-            if elems is not None:
-                n = len(elems)
-
-                def run(ip, st, i):
-                    if i >= n:
-                        out = st.heap[cell[1]].fields
-                        return ip.finish_call(st, dest, target, Opaque.make(kind, elems=tuple(out), n=len(out), summary=None))
-
-                    def after(ip2, st2, rv):
-                        st2.heap[cell[1]] = TupleVal(st2.heap[cell[1]].fields + (rv,))
-                        return run(ip2, st2, i + 1)
-                    if not ctx.call_closure_on(st, f, [elems[i]], after):
-                        raise Inconclusive("collect: cannot invoke map closure")
-                    return None
-                return run(ctx.ip, ctx.st, 0)
-            summ = inner.get("summary")
-
-            def after1(ip2, st2, rv):
-                return ip2.finish_call(st2, dest, target, Opaque.make(kind, elems=None, n=IntVal(USIZE, 0, 1 << 40), summary=rv))
-            if ctx.call_closure_on(ctx.st, f, [summ], after1):
-                return None
-        return ctx.ret(ctx.top_ret())
-
     # ------------------------------------------------------------------ tracing (no-ops)
     @S.pat(r"tracing(_core)?::")
     def tracing_any(ctx):
